@@ -245,6 +245,9 @@ def fsync_families(pools=(0, 1, 2)):
     for p in pools:
         out.append(make('FSaw_p%d' % p, 1, p, 0, [FS(1, then='await')]))
         out.append(make('FSaw_g_Fire_p%d' % p, 1, p, 1, [FS(1, aw=[1], then='await')], [FIRE(1)]))
+        # the awaiting task becomes the queue's runner and an earlier operation goes pending inside its drain
+        out.append(make('FDdet_g_FSaw_Fire_p%d' % p, 1, p, 1, [FD(1, aw=[1], then='detach'), FS(1, then='await'), S(1)], [FIRE(1)]))
+        out.append(make('AF_g_FSaw_Fire_T_p%d' % p, 1, p, 1, [FD(1, aw=[1], then='detach'), FS(1, then='await')], [FIRE(1), T(1)]))
     for p in (1, 2):
         out.append(make('FSaw_g_D_Fire_p%d' % p, 1, p, 1, [FS(1, aw=[1], then='await'), D(1)], [FIRE(1)]))
         out.append(make('D_FSdrop_S_p%d' % p, 1, p, 0, [D(1), FS(1, then='drop'), S(1)]))
@@ -273,6 +276,9 @@ def suspend_families(pools=(0, 1)):
         # a later future is polled once while the queue is still pending: the poll drains up to the suspension and parks the queue
         out.append(make('SU_FD_PO_AW_RS_DR_p%d' % p, 1, p, 0, [D(1), SU(1, label='s'), FD(1, label='f'), D(1), PO('f'), AW('s'), RS('s'), DR('f')]))
         out.append(make('SU_FD_PO_AW_DRS_p%d' % p, 1, p, 0, [SU(1, label='s'), FD(1, label='f'), D(1), PO('f'), AW('s'), DRS('s')], [T(1)]))
+        # a sync caller runs the suspension (the queue waits for its thread to be unparked) while a queue waker retained from an earlier
+        # future operation is woken again
+        out.append(make('FD_SUsync_SPUR_D_RS_p%d' % p, 1, p, 1, [S(1)], [FD(1, aw=[1], then='detach'), FIRE(1), SU(1, then='await', label='s'), SPUR(1), D(1), RS('s'), S(1)]))
     return out
 
 
